@@ -251,7 +251,17 @@ impl<'a> Fx<'a> {
                             continue;
                         }
                     }
-                    let lt = if str_params.contains(&pt.ty.to_token_stream().to_string()) { "(List Char)".to_string() } else { self.ty(&pt.ty)? };
+                    let unused = matches!(&*pt.pat, Pat::Ident(id) if id.ident.to_string().starts_with('_'));
+                    let lt = if str_params.contains(&pt.ty.to_token_stream().to_string()) {
+                        "(List Char)".to_string()
+                    } else {
+                        match self.ty(&pt.ty) {
+                            Ok(t) => t,
+                            // a parameter the function does not look at
+                            Err(_) if unused => "Unit".to_string(),
+                            Err(e) => return Err(e),
+                        }
+                    };
                     let alts = self.pat_alts(&pt.pat)?;
                     if alts.len() != 1 {
                         return Err("or-pattern in a parameter".into());
